@@ -168,7 +168,7 @@ def case_worker(case):
 
 def gen_cases(ctx):
     rng = ctx.rng
-    n = 60 if ctx.quick else 600
+    n = 60 if ctx.quick else 1500
     cases = []
     for i in range(n):
         emit = EMITS[i % len(EMITS)] if i < 2 * len(EMITS) else rng.choice(EMITS)
